@@ -93,6 +93,10 @@ def programs():
     # plain loop bodies whose inferred-width operands / data cross a width boundary between iterations
     out["for-inferred-width"] = pre + [("for", "i", "0", "3", [R("lda #i * 0x80"), R("lda i * 0x8000"), R(".db i"), R("ldx #i * 0xff + 1")]), R("after:"), R(".dl after")] + post
     out["for-inferred-width-symbolic"] = pre + [R("w := c & 0x1ff"), ("for", "i", "0", "b2", [R("lda #w + i * 0x100"), R("cmp w + i")]), R("after:"), R(".dl after")] + post
+    # a macro definition in a branch that is not taken / a loop that does not run has no effect
+    emit = lambda b: ("macrodef", "emit", [], [R(f".db {b}")])  # noqa: E731
+    out["macro-defined-in-untaken-branch"] = pre + [emit("0x11"), ("if", "c", [emit("0x22")], [R("nop")]), ("call", "emit", []), ("if", "d", [R("nop")], [emit("0x33")]), ("call", "emit", []),
+                                                   ("for", "i", "0", "b2", [emit("0x44")]), ("call", "emit", []), ("if", "nosuchname", [emit("0x55")], None), ("call", "emit", [])] + post
     out["for-empty-then-code"] = pre + [("for", "i", "3", "b2", [R(".db i")]), R(".db 0x55")] + post
     return out
 
